@@ -35,7 +35,7 @@ structure Raw where
 
 def emptyCert : Cert :=
   { subject := [], issuer := [], notBefore := 1, notAfter := 0, bc := none, keyUsage := none,
-    eku := none, skid := none, akid := none, critFuture := false, pubKey := 0, sigBy := none }
+    eku := none, skid := none, akid := none, futureExts := [], pubKey := 0, sigBy := none }
 
 def parseField (r : Raw) (f : String) : Option Raw :=
   match f.splitOn "=" with
@@ -58,7 +58,17 @@ def parseField (r : Raw) (f : String) : Option Raw :=
       else ((v.splitOn ".").mapM String.toNat?).map fun l => { r with c := { r.c with eku := some l } }
     | "sk" => (optNat v).map fun n => { r with c := { r.c with skid := n } }
     | "ak" => (optNat v).map fun n => { r with c := { r.c with akid := n } }
-    | "cr" => v.toNat?.map fun n => { r with c := { r.c with critFuture := n == 1 } }
+    -- legacy single element: 1 = one critical sub-extension, 2 = one non-critical one (it comes FIRST)
+    | "cr" => v.toNat?.map fun n =>
+        { r with c := { r.c with futureExts :=
+            (if n == 1 then [[⟨3, true⟩]] else if n == 2 then [[⟨3, false⟩]] else []) ++ r.c.futureExts } }
+    -- `fx=<el>/<el>/…`, element = `<sub>.<sub>…`, sub = `c<oid>` critical, `n<oid>` / `f<oid>` not critical
+    | "fx" =>
+      if v = "-" then some r else
+      ((v.splitOn "/").mapM fun (el : String) => (el.splitOn ".").mapM fun (sb : String) =>
+        match sb.toList with
+        | k :: rest => (String.ofList rest).toNat?.map fun o => (⟨o, k == 'c'⟩ : FutExt)
+        | [] => none).map fun l => { r with c := { r.c with futureExts := r.c.futureExts ++ l } }
     | "pk" => v.toNat?.map fun n => { r with c := { r.c with pubKey := n } }
     | "sg" => (optNat v).map fun n => { r with sg := n }
     | "fl" => some { r with fl := true }
@@ -113,17 +123,17 @@ def parseFabs (s : String) : Option (List FabricEntry) :=
 def genRoot (fab rca kr nb na : Nat) : Cert :=
   { subject := [.rootCaId rca, .fabricId fab], issuer := [.rootCaId rca, .fabricId fab],
     notBefore := nb, notAfter := na, bc := some (true, none), keyUsage := some 0x60, eku := none,
-    skid := some kr, akid := some kr, critFuture := false, pubKey := kr, sigBy := some kr }
+    skid := some kr, akid := some kr, futureExts := [], pubKey := kr, sigBy := some kr }
 
 def genIcac (fab rca ica kr ki nb na : Nat) : Cert :=
   { subject := [.icaId ica, .fabricId fab], issuer := [.rootCaId rca, .fabricId fab],
     notBefore := nb, notAfter := na, bc := some (true, some 0), keyUsage := some 0x60, eku := none,
-    skid := some ki, akid := some kr, critFuture := false, pubKey := ki, sigBy := some kr }
+    skid := some ki, akid := some kr, futureExts := [], pubKey := ki, sigBy := some kr }
 
 def genNoc (fab node : Nat) (cats : List Nat) (issuer : DN) (ik kn nb na : Nat) : Cert :=
   { subject := [.nodeId node, .fabricId fab] ++ cats.map Attr.cat, issuer := issuer,
     notBefore := nb, notAfter := na, bc := some (false, none), keyUsage := some 1, eku := some [1, 2],
-    skid := some kn, akid := some ik, critFuture := false, pubKey := kn, sigBy := some ik }
+    skid := some kn, akid := some ik, futureExts := [], pubKey := kn, sigBy := some ik }
 
 def accepted (out : String) : Bool := out.startsWith "ok"
 
